@@ -225,6 +225,37 @@ def run(ck, cases, tier, compile_n):
         ck.notes["compiled_bodies"] = len(obs)
 
 
+def suite_pipeline(ck, selftest=False):
+    """(iv) the stage events of the derives in the repository's OWN test crates (its fixture documents, with
+    several operations per file selected by struct name) validated against GraphqlClient.tla"""
+    import suite, re
+    lines = suite.record()
+    if not lines:
+        raise ToolError("no derive events from the repository's test crates")
+    trace = suite.pipeline_trace(lines, None)
+    if selftest:
+        j = next(k for k, e in enumerate(trace) if e["a"] == "Selected")
+        trace[j] = dict(trace[j], names=trace[j]["names"] + ["Extra"])
+    tpath = os.path.join(vlib.WORK, "suite", "pipeline_trace.ndjson")
+    with open(tpath, "w") as f:
+        for t in trace:
+            f.write(json.dumps(t) + "\n")
+    rt = vlib.run_tlc("Trace_Pipeline", "Trace_Pipeline.cfg", env={"TRACE": tpath}, dfs=True, timeout=900)
+    ck.add_tlc(rt)
+    ck.count(len(lines))
+    ck.notes["repository_test_crates"] = {"derives": len(lines), "pipeline_trace_events": len(trace)}
+    if not rt["ok"]:
+        m = re.search(r'"UNMATCHED", (\d+)', rt["out"])
+        i = int(m.group(1)) if m else 0
+        start = max([j for j in range(min(i, len(trace))) if trace[j]["a"] == "Begin"] or [0])
+        ck.violation("suite-pipeline-%s" % vlib.stable_hash(trace[start]), {"call": trace[start], "events": trace[start:i + 1], "violated": rt["violated"],
+                                                                           "tlc": rt["out"][-800:]},
+                     "C05(iv): stage events of a derive in the repository's own tests are not a behaviour of GraphqlClient.tla (%s): inputs %s, events %s" % (
+                         rt["violated"] or "rejected", json.dumps({k: trace[start][k] for k in ("ops", "requested", "normalization", "mode")}),
+                         json.dumps([(t["a"], t["names"] or t["name"] or t["outcome"]) for t in trace[start + 1:i + 1]])[:300]),
+                     case_key="suite-pipeline")
+
+
 def pipeline_trace(ck, cases, tier, selftest=False):
     """(iii) stage events of real calls validated against GraphqlClient.tla by TLC (Trace_Pipeline)"""
     import random
@@ -343,6 +374,7 @@ def main(tier, replay=None, selftest=False):
         cases[0]["ops"] = list(reversed(cases[0]["ops"])) + ["Other"] if "Other" not in cases[0]["ops"] else cases[0]["ops"]
     run(ck, cases, tier, compile_n)
     pipeline_trace(ck, cases, tier, selftest)
+    suite_pipeline(ck, selftest)
     ck.assumptions += ["name pool with normalisation near-misses (OpSelect!Camel is heck's UpperCamelCase on that pool)",
                        "QUERY / OPERATION_NAME are read with syn::LitStr::value (rustc's unescaping); a sample is compiled and observed through to_value(build_query)",
                        "cli/library calls whose explicit name matches nothing, and unselected documents whose operations collide after normalisation, are outside the statement"]
